@@ -42,7 +42,10 @@ LimbBelow(m, i) == BSub(m, BFromBE(<<1>> \o [q \in 1..(8 * i) |-> 0]))
 LimbCases(j) == Cat([i \in 1..3 |-> FpCases(j, Aof(j, PP), LimbBelow(PP, i)) \o FnCases(j, Aof(j, NN), LimbBelow(NN, i))
                                    \o << Rec("fp", "add", BSub(LimbBelow(PP, i), <<5>>), <<5>>), Rec("fn", "add", BSub(LimbBelow(NN, i), <<5>>), <<5>>),
                                          Rec("fp", "add", LimbBelow(PP, i), BFromBE(<<1>> \o [q \in 1..(8 * i) |-> 0])), Rec("fn", "add", LimbBelow(NN, i), BFromBE(<<1>> \o [q \in 1..(8 * i) |-> 0])) >>], 1)
-Cases(j) == (IF j = 1 THEN LimbCases(j) ELSE <<>>) \o Cat([q \in 1..Len(Deltas(j)) |-> FpCases(j, Aof(j, PP), Deltas(j)[q]) \o FnCases(j, Aof(j, NN), Deltas(j)[q])], 1)
+\* sums that are EXACTLY the modulus (result 0) or one less / one more
+ExactCases == << Rec("fp", "add", BSub(PP, <<5>>), <<5>>), Rec("fp", "add", BSub(PP, <<1>>), <<1>>), Rec("fp", "add", BSub(PP, <<5>>), <<4>>), Rec("fp", "add", BSub(PP, <<5>>), <<6>>),
+                Rec("fn", "add", BSub(NN, <<5>>), <<5>>), Rec("fn", "add", BSub(NN, <<1>>), <<1>>), Rec("fn", "add", BSub(NN, <<5>>), <<4>>), Rec("fn", "add", BSub(NN, <<5>>), <<6>>) >>
+Cases(j) == (IF j = 1 THEN LimbCases(j) \o ExactCases ELSE <<>>) \o Cat([q \in 1..Len(Deltas(j)) |-> FpCases(j, Aof(j, PP), Deltas(j)[q]) \o FnCases(j, Aof(j, NN), Deltas(j)[q])], 1)
 Init == pidx = 0 /\ pout = <<>>
 Next == pidx < NK /\ pidx' = pidx + 1 /\ pout' = Cases(pidx + 1)
 Emit == \A j \in 1..Len(pout) : PrintT(<<"PLAN", ToJson(pout[j])>>)
